@@ -68,6 +68,18 @@ func (w *world) Invariant(prevCanon, ev string) []vxstate.Finding {
 			pre.RAck, post.R.Ack, post.F.App, ctx))
 	}
 
+	if ev == "L.expire" && w.expireAns != nil {
+		behind := !post.F.Exists || post.F.App < post.L.App
+		switch {
+		case *w.expireAns && behind:
+			add("log-expired-before-replicated", fmt.Sprintf("partition.IsExpire answered true (the write ahead log will be deleted) while the follower's appended index is behind the leader's | %s", ctx))
+		case !post.R.Exists && behind:
+			add("replicator-stopped-before-replicated", fmt.Sprintf("partition.IsExpire stopped the follower's replicator while the follower's appended index is behind the leader's | %s", ctx))
+		}
+		gRep.Outcome(fmt.Sprintf("L.expire=%v behind=%v replicator=%v", *w.expireAns, behind, post.R.Exists))
+		w.report(out, nil)
+		return out
+	}
 	gRep.Outcome(w.outcome(pre, post.lite()))
 
 	c := w.Canon() // cached from here on
